@@ -112,6 +112,72 @@ def pp(e):
     raise ValueError(e)
 
 
+# ----------------------------------------------------------------------------- minimal-parentheses printer
+# ECMAScript operator precedence (higher binds tighter); all binary operators used here are left-associative
+_PREC = {'*': 13, '/': 13, '%': 13, '+': 12, '-': 12, '<<': 11, '>>': 11, '<': 10, '<=': 10, '>': 10, '>=': 10,
+         '==': 9, '!=': 9, '&': 8, '^': 7, '|': 6, '&&': 5, '||': 4}
+
+
+def _prec(e):
+    k = e[0]
+    if k == 'bin':
+        return _PREC[e[1]]
+    if k == 'tern':
+        return 3
+    if k == 'un':
+        return 15
+    if k == 'lit' and e[1] in ('int', 'double') and isinstance(e[2], (int, float)) and not isinstance(e[2], bool) and (e[2] < 0 or repr(e[2]).startswith('-')):
+        return 15       # a negative literal is a unary expression
+    return 20
+
+
+def pp_min(e, strict=0):
+    """prints with the parentheses JavaScript needs and no others (so that precedence and associativity are decided
+    by the real parser); `strict` alternates == / != with their aliases === / !=="""
+    k = e[0]
+
+    def sub(x, need):
+        t = pp_min(x, strict)
+        return f'({t})' if _prec(x) < need else t
+    if k == 'un':
+        inner = e[2]
+        t = pp_min(inner, strict)
+        if _prec(inner) < 15 or inner[0] == 'un' or t.startswith(('-', '+')):
+            t = f'({t})'
+        return e[1] + t
+    if k == 'bin':
+        op = e[1]
+        p_ = _PREC[op]
+        l = sub(e[2], p_)
+        r = sub(e[3], p_ + 1)
+        # a comparison directly inside a comparison stays parenthesised: `a < b > c` is read as type arguments
+        if p_ == 10:
+            if e[2][0] == 'bin' and _PREC[e[2][1]] == 10:
+                l = f'({pp_min(e[2], strict)})'
+        if op in ('==', '!=') and strict:
+            op = op + '='
+        return f'{l} {op} {r}'
+    if k == 'tern':
+        c = sub(e[1], 4)
+        return f'{c} ? {sub(e[2], 3)} : {sub(e[3], 3)}'
+    if k == 'prop':
+        return f'{sub(e[1], 20)}.{e[2]}'
+    if k == 'cast':
+        # `as` sits at the relational level: anything at or below it is parenthesised
+        return f'({sub(e[1], 11)} as {qml_type(e[2])})'
+    if k == 'call':
+        return f'Math.{e[1]}({pp_min(e[2], strict)}, {pp_min(e[3], strict)})'
+    if k == 'isEmpty':
+        return f'{sub(e[1], 20)}.isEmpty()'
+    if k == 'sub':
+        return f'{sub(e[1], 20)}[{pp_min(e[2], strict)}]'
+    if k == 'arr':
+        return '[' + ', '.join(pp_min(x, strict) for x in e[1]) + ']'
+    if k == 'arg':
+        return f'{sub(e[1], 20)}.arg({pp_min(e[2], strict)})'
+    return pp(e)
+
+
 def qml_type(t):
     if t.startswith('ptr:'):
         return t[4:]
